@@ -115,6 +115,8 @@ type Region struct {
 	FixedLen int64
 	// Param: region backing a parameter slice (caller visible)
 	Param bool
+	// Sub: for elements that are structs of scalars, one sub-region per field (the region itself has no array)
+	Sub []*Region
 }
 
 func valString(v Val) string {
